@@ -246,7 +246,10 @@ func entryForTier(d *EntryDef, tier string) (*EntrySpec, bool) {
 	return &s, true
 }
 
+var partialRun bool
+
 func runCheck(id, tier, replayPath string, workers int, extraOverlay map[string]string, only string, trace bool) int {
+	partialRun = only != "" || len(extraOverlay) > 0
 	t0 := time.Now()
 	seed, _ := strconv.Atoi(os.Getenv("VERIF_SEED"))
 	specPath := filepath.Join(verifRoot, "checks", id+".json")
@@ -554,6 +557,8 @@ func writeEvidence(spec *CheckSpec, tier string, seed int, results []*EntryResul
 	dir := filepath.Join(verifRoot, "evidence")
 	if d := os.Getenv("VERIF_EVIDENCE_DIR"); d != "" {
 		dir = d // used when running against mutants, so that committed evidence is not overwritten
+	} else if partialRun {
+		dir = filepath.Join(verifRoot, ".work", "evidence-partial") // --only / --overlay: a development run, not the check
 	}
 	os.MkdirAll(dir, 0o755)
 	b, _ := json.MarshalIndent(ev, "", " ")
